@@ -33,3 +33,14 @@ func init() {
 			Old: "\tfor {\n\t\tif time.Now().After(block.MsgBlock().Header.Timestamp) {\n\t\t\tbreak\n\t\t}\n\t\ttime.Sleep(time.Second * pocSlot / 4)\n\t}\n", New: "\tfor !time.Now().After(block.MsgBlock().Header.Timestamp) {\n\t\ttime.Sleep(time.Second * pocSlot / 4)\n\t}\n"},
 	}
 }
+
+func init() {
+	variants["C08"] = append(variants["C08"],
+		variant{Name: "best quality not reset between slots", Kill: true, Rule: "C08-TARGET", File: fMinerStrategy,
+			Old: "\t\t\t\tbestQuality.SetUint64(0)\n", New: ""},
+		variant{Name: "stale monitor waits for the next height only", Kill: true, Rule: "C08-SLOT", File: fMiner,
+			Old: "\tch, err := chain.BlockWaiter(node.Height)\n", New: "\tch, err := chain.BlockWaiter(node.Height + 1)\n"},
+		variant{Name: "best accumulator reset by assigning a fresh zero", Kill: false, File: fMinerStrategy,
+			Old: "\t\t\t\tbestQuality.SetUint64(0)\n", New: "\t\t\t\tbestQuality = big.NewInt(0)\n"},
+	)
+}
